@@ -91,7 +91,7 @@ impl Layout {
 }
 
 fn header_edit(rng: &mut Rng) -> HeaderEdit {
-    match rng.below(12) {
+    match rng.below(13) {
         0 | 1 => HeaderEdit::FlipHashDigit { pos: rng.below(64) as usize },
         2 => HeaderEdit::TruncateHashLine { keep: rng.below(70) as usize },
         3 | 4 => HeaderEdit::ChangeVersion { to: rng.pick(&["0.19.0", "0.23.0", "0.23.10", "1.0.0", ""]).to_string() },
@@ -99,8 +99,14 @@ fn header_edit(rng: &mut Rng) -> HeaderEdit {
         6 => HeaderEdit::TruncateFile { bytes: *rng.pick(&[0usize, 1, 10, 34, 35, 36, 50, 100, 107, 108]) },
         7 => HeaderEdit::TruncateFile { bytes: rng.below(109) as usize },
         8 => HeaderEdit::Garbage { line: rng.below(2) as usize, hex: rng.pick(&["fffe", "00", "c328", "e28282", "f0288c28"]).to_string() },
-        9 => HeaderEdit::Garbage { line: rng.below(2) as usize, hex: rng.pick(&["7878", "2f2a", "23"]).to_string() },
-        10 => HeaderEdit::DropVersionLine,
+        9 | 12 => HeaderEdit::Garbage { line: rng.below(2) as usize, hex: rng.pick(&["7878", "2f2a", "23"]).to_string() },
+        10 => match rng.below(5) {
+            0 => HeaderEdit::DropVersionLine,
+            1 => HeaderEdit::UppercaseHash,
+            2 => HeaderEdit::AppendToHashLine { text: rng.pick(&["0", "ab", " stale", "x"]).to_string() },
+            3 => HeaderEdit::AppendToVersionLine { text: rng.pick(&["0", " (modified)", "\"", "-beta"]).to_string() },
+            _ => HeaderEdit::UppercaseVersionLine,
+        },
         _ => HeaderEdit::FlipHashDigit { pos: 63 },
     }
 }
@@ -108,7 +114,14 @@ fn header_edit(rng: &mut Rng) -> HeaderEdit {
 pub fn history(pool: &Pool, seed: u64, n: u64) -> Scenario {
     let mut rng = Rng::derive(seed, 300_000 + n);
     let layout = Layout { kind: rng.below(4) as usize, report: rng.chance(1, 8), comments: rng.chance(1, 10), rerun: rng.chance(1, 6) };
-    let texts = if rng.chance(3, 4) { pool.tiny() } else { pool.valid_small() };
+    let texts = if rng.chance(3, 4) {
+        pool.tiny()
+    } else if rng.chance(1, 16) {
+        // now and then grammars of a few KB (outputs of 50-250 KB)
+        pool.all.iter().filter(|t| t.class == crate::pool::Class::Valid && t.bytes.len() > 700 && t.bytes.len() < 3500).collect()
+    } else {
+        pool.valid_small()
+    };
     let errors = pool.errors();
     let ngram = rng.range(1, 4) as usize;
     let transparent = rng.chance(1, 2);
